@@ -115,6 +115,8 @@ def run(ctx):
            "each term is Rational64::new(if loopless { 2 } else { 1 }, v)" if okt else "the per-orbit term is not (2 or 1)/v")
     symbol_digits(ctx, g)
     loopless_test(ctx, g)
+    euler_formula(ctx, g)
+    symbol_genus(ctx, g)
 
 
 def loopless_test(ctx, g):
@@ -142,6 +144,96 @@ def loopless_test(ctx, g):
                "the test runs over ds.orbit([i, j], d) of each 2-orbit representative d" if okorb else "the loopless test does not run over the (i, j)-orbit of a representative from orbit_reps_2d(i, j): " + show(src, 1)[:90], b.span_of(bi))
         if len(idx) == 2:
             orbit_member_fixed_tests(ctx, "T2-loopless-test", b, bi, t, g, ds, idx, "all", "op(i, e) != Some(e) && op(j, e) != Some(e)")
+
+
+def euler_formula(ctx, g):
+    """euler_characteristic(ds) = F - E + V of the cell complex of the orbifold's underlying surface: F = size chambers (triangles),
+    E = (3*size + loops_0 + loops_1 + loops_2) / 2 (every chamber has three edges, an edge on a mirror is not shared), V = number of
+    (0,1)-, (0,2)- and (1,2)-orbits; decided by evaluating the returned expression on sampled counts"""
+    import random
+    ctx.clauses.append("Euler characteristic = size + #2-orbits(01, 02, 12) - (3*size + #loops(0, 1, 2)) / 2 (T4, expression evaluated on samples)")
+    b = ctx.body(M + "euler_characteristic")
+    ctx.scan(ctx.facts.with_closures(b.name))
+    ds = ("param", 1, b.debug.get(1, ""))
+    r = ret_origin(b, g)
+    size_t = ("call", "dsets::DSet::size", (ds,))
+    calls = []
+    for x in subterms(r):
+        if is_call(x, "Fn::call") and x not in calls:
+            calls.append(x)
+    kinds = {}
+    for x in calls:
+        cp = closure_parts(x[2][0])
+        args = tuple(eval_int(a) for a in strip(x[2][1])[2]) if strip(x[2][1])[0] == "agg" else None
+        kind = None
+        if cp:
+            cb = ctx.facts.bodies.get(cp[0])
+            if cb is not None:
+                names = [t["callee"].get("def", "") for bi, t in cb.calls()]
+                if any(n.endswith("orbit_reps_2d") for n in names) and any(n.endswith("::len") for n in names):
+                    kind = "orbits"
+                elif any(n.endswith("Iterator::count") for n in names) and any(n.endswith("Iterator::filter") for n in names):
+                    kind = "loops"
+        kinds[x] = (kind, args)
+    orb = sorted(a for k, a in kinds.values() if k == "orbits")
+    lps = sorted(a for k, a in kinds.values() if k == "loops")
+    oksets = orb == [(0, 1), (0, 2), (1, 2)] and lps == [(0,), (1,), (2,)]
+    ctx.ob("T4-euler-formula", b.name, "counts used", "ok" if oksets else "violation",
+           "orbit counts for the pairs 01, 02, 12 and loop counts for the operations 0, 1, 2" if oksets else
+           "the formula uses orbit counts for %s and loop counts for %s, not (01, 02, 12) and (0, 1, 2)" % (orb, lps))
+    rnd = random.Random(11)
+    bad = None
+    for _ in range(40):
+        n = rnd.randint(1, 40)
+        env = {size_t: n}
+        vo = {x: rnd.randint(1, 30) for x in calls if kinds[x][0] == "orbits"}
+        vl = {x: rnd.randint(0, 9) for x in calls if kinds[x][0] == "loops"}
+        if (3 * n + sum(vl.values())) % 2:
+            continue
+        env.update(vo)
+        env.update(vl)
+        got = eval_term_env(r, env)
+        want = n + sum(vo.values()) - (3 * n + sum(vl.values())) // 2
+        if got != want:
+            bad = "for size %d, orbit counts %s and loop counts %s the expression gives %s, not F + V - E = %d" % (n, sorted(vo.values()), sorted(vl.values()), got, want)
+            break
+    ctx.ob("T4-euler-formula", b.name, "F + V - E", "ok" if not bad and oksets else "violation",
+           "size + sum of orbit counts - (3*size + sum of loop counts) / 2 on sampled counts" if not bad and oksets else (bad or "see `counts used`"))
+
+
+def symbol_genus(ctx, g):
+    """orbifold_symbol: with chi = euler_characteristic(ds) + #boundary components (the closed-up surface) and x = 2 - chi, an orientable
+    surface gets x/2 handles "o", a non-orientable one x cross-caps "x"; the choice is made by is_weakly_oriented(ds)"""
+    ctx.clauses.append("orbifold symbol: x = 2 - (euler_characteristic + #boundary components); 'o' * (x / 2) if weakly oriented, 'x' * x otherwise (T4)")
+    b = ctx.body(M + "orbifold_symbol")
+    ds = ("param", 1, b.debug.get(1, ""))
+    E = ("call", M + "euler_characteristic", (ds,))
+    Bn = ("call", "std::vec::Vec::<T, A>::len", (("call", M + "trace_boundary", (ds,)),))
+    wk = ("call", "dsets::DSet::is_weakly_oriented", (ds,))
+    got = {}
+    for bi, t in b.calls("vec::from_elem"):
+        a = [strip(norm(b.origin(x), g)) for x in t["args"]]
+        if a[0][0] != "str":
+            continue
+        pol = None
+        for x in b.facts_at(bi):
+            x = atom_norm(x, g)
+            if x[0] == "bool" and (x[1][0], x[1][1], tuple(strip(y) for y in x[1][2])) == wk:
+                pol = x[2]
+        vals = [eval_term_env(expand_single_defs(b, a[1], g), {E: e, Bn: k}) for e, k in ((2, 0), (0, 0), (-2, 0), (-4, 2), (1, 1), (-1, 3))]
+        got[a[0][1]] = (pol, vals)
+    xs = [2 - (e + k) for e, k in ((2, 0), (0, 0), (-2, 0), (-4, 2), (1, 1), (-1, 3))]
+    want = {"o": (True, [x // 2 for x in xs]), "x": (False, xs)}
+    bad = []
+    for k, w in want.items():
+        if k not in got:
+            bad.append("no run of %r" % k)
+        elif got[k][0] != w[0]:
+            bad.append("%r is emitted under is_weakly_oriented == %s" % (k, got[k][0]))
+        elif got[k][1] != w[1]:
+            bad.append("the number of %r is %s for (euler, #boundaries) = (2,0), (0,0), (-2,0), (-4,2), (1,1), (-1,3); expected %s" % (k, got[k][1], w[1]))
+    ctx.ob("T4-symbol-genus", b.name, "handles / cross-caps", "ok" if not bad else "violation",
+           "'o' * ((2 - chi) / 2) on orientable, 'x' * (2 - chi) on non-orientable surfaces, chi = euler + #boundaries (6 sampled surfaces)" if not bad else "; ".join(bad))
 
 
 def symbol_digits(ctx, g):
